@@ -81,6 +81,19 @@ def extract_nested_variables(
     return all_subs, component_subs
 
 
+def _nested_subs(var: myokit.Variable) -> dict[sp.Symbol, sp.Symbol]:
+    """Substitutions for the variables nested in `var`. Inside the expression
+    of `var` they are referred to by their local name and have to be replaced
+    by their unique name (the keys must be symbols: strings never match)"""
+    subs = {}
+    for v in var.variables(deep=True):
+        name = v.uname()
+        if name in reserved_names:
+            name = f"{name}_"
+        subs[sp.Symbol(v.name())] = sp.Symbol(name)
+    return subs
+
+
 def mmt_to_gotran(filename: str | Path) -> ODE:
     """Convert a myokit model to gotran ODE
 
@@ -151,7 +164,7 @@ def myokit_to_gotran(model: myokit.Model, protocol=None) -> ODE:
                 states.append(state)
                 with sp.core.parameters.evaluate(False):
                     expr = myokit.formats.sympy.write(var.eq().rhs)
-                    expr = expr.xreplace({v.name(): v.uname() for v in var.variables(deep=True)})
+                    expr = expr.xreplace(_nested_subs(var))
                     expr = expr.xreplace(component_subs.get(component.name(), {}))
                     expr = expr.xreplace(all_subs)
 
@@ -181,9 +194,7 @@ def myokit_to_gotran(model: myokit.Model, protocol=None) -> ODE:
 
                 else:
                     with sp.core.parameters.evaluate(False):
-                        expr = expr.xreplace(
-                            {v.name(): v.uname() for v in var.variables(deep=True)}
-                        )
+                        expr = expr.xreplace(_nested_subs(var))
                         expr = expr.xreplace(component_subs.get(component.name(), {}))
                         expr = expr.xreplace(all_subs)
 
